@@ -91,13 +91,13 @@ def rule_r1_r2(ck, prog, cg, roles, batch=True):
     n_cycles = []
     for t in sorted(roles.thread_entries):
         tf = prog.funcs[t]
-        g = Graph(prog, tf, inline=same_class_inline(prog, roles.cls), max_depth=3)
+        g = Graph(prog, tf, inline=same_class_inline(prog, roles.cls), max_depth=5)
         rd = reaching_defs(g)
         loads = _pending_loads(g, roles)
         exports = g.calls(EXPORTER_EXPORT)
         if batch:
             snaps = [p for p in g.calls(('CircularBuffer::size', 'CircularBuffer::Consume'))
-                     if any(e.ctx is p.ctx for e in exports)]
+                     if any(g.unit_ctx(e.ctx, exports) is g.unit_ctx(p.ctx, exports) for e in exports)]
         else:
             # periodic reader: the snapshot is the start of the collect task
             snaps = [p for p in g.calls('std::thread::thread') if p.f.cls == roles.cls or p.f.d.get('lambda')]
@@ -116,9 +116,10 @@ def rule_r1_r2(ck, prog, cg, roles, batch=True):
             if (s.f.key, site, s.n['i']) in done:
                 continue
             done.add((s.f.key, site, s.n['i']))
-            ctx_entry = g.ctx_bounds[id(s.ctx)][0]
-            same_ctx_loads = [l for l in loads if l.ctx is s.ctx]
-            srcs = [ctx_entry] + [e for e in exports if e.ctx is s.ctx]
+            us = g.unit_ctx(s.ctx, exports) if batch else s.ctx
+            ctx_entry = g.ctx_bounds[id(us)][0]
+            same_ctx_loads = [l for l in loads if (g.unit_ctx(l.ctx, exports) if batch else l.ctx) is us]
+            srcs = [ctx_entry] + [e for e in exports if (g.unit_ctx(e.ctx, exports) if batch else e.ctx) is us]
             bad = None
             for src in srcs:
                 if src in same_ctx_loads:
@@ -257,9 +258,10 @@ def rule_r1_r2(ck, prog, cg, roles, batch=True):
                 return False
             rds = reaching_defs(g, skip_edge=ticket_zero_edge)
             for c in g.calls('CircularBuffer::Consume'):
-                if not any(e.ctx is c.ctx for e in exports):
+                uc = g.unit_ctx(c.ctx, exports)
+                if not any(g.unit_ctx(e.ctx, exports) is uc for e in exports):
                     continue
-                key = ('r11', c.f.key, c.n['i'])
+                key = ('r11', uc.f.key, c.n['i'])
                 if key in done:
                     continue
                 done.add(key)
@@ -281,9 +283,9 @@ def rule_r1_r2(ck, prog, cg, roles, batch=True):
                     ck.holds('C02.R11', c.f, 'publication-covers-snapshot', c.n, 'with a ticket pending the whole queue-size snapshot is consumed before the publication')
                     continue
                 # a bounded chunk: every publication that follows it in the same cycle must be behind a "nothing left" edge
-                same_iter = g.reachable_from([q for (q, _l) in c.succ], avoid=[l for l in loads if l.ctx is c.ctx])
+                same_iter = g.reachable_from([q for (q, _l) in c.succ], avoid=[l for l in loads if g.unit_ctx(l.ctx, exports) is uc])
                 bad = [p for (p, _o) in pubs if p.id in same_iter and
-                       p.id in g.reachable_from([q for (q, _l) in c.succ], avoid=[l for l in loads if l.ctx is c.ctx], avoid_edges=nothing_left_edge)]
+                       p.id in g.reachable_from([q for (q, _l) in c.succ], avoid=[l for l in loads if g.unit_ctx(l.ctx, exports) is uc], avoid_edges=nothing_left_edge)]
                 ck.verdict(not bad, 'C02.R11', c.f, 'publication-covers-snapshot', partial.n,
                            'bounded chunks, and the publication is only reached once nothing is left' if not bad else
                            'with a flush ticket pending only a bounded chunk of the queue is consumed, and the ticket is published right after that chunk: ForceFlush returns true while records that were queued before it began are still in the queue',
@@ -429,7 +431,7 @@ def rule_r12(ck, prog, roles, rule='C02.R12'):
     shutdown latch reads true to the return of the thread entry passes an emptiness observation of the queue (the drain loop)"""
     for t in sorted(roles.thread_entries):
         tf = prog.funcs[t]
-        g = Graph(prog, tf, inline=same_class_inline(prog, roles.cls), max_depth=3)
+        g = Graph(prog, tf, inline=same_class_inline(prog, roles.cls), max_depth=5)
         rd = reaching_defs(g)
         if not g.calls(EXPORTER_EXPORT):
             continue
